@@ -111,3 +111,32 @@ Theorem C03_trees_with_cold_caches : forall s, ColdCache.ids_distinct s ->
   is_none (fst (map_of [] s c)) = negb (mapped_chunk_exists (fst (fst (stream [] s (mkOpts c false))))).
 Proof. exact ColdCacheTree.fresh_C03_map. Qed.
 Print Assumptions C03_trees_with_cold_caches.
+
+(* the extracted checker accepts the model's own observations: verdict 0 outside the known-finding
+   class K1, and inside it 0 or the K1 code - never anything else *)
+From RS Require Import Api.ApiTree.
+From RS Require Proofs.WfAllChk Proofs.ChkModelC03.
+Theorem C03_checker_accepts_model : forall s ws,
+  RStreamTree.rshape s = true -> treeA s = true -> rsmall s = true -> k1_shape s = false ->
+  WfAllChk.enc_small [] s -> chk_C03 s (api_tree s ws) = 0.
+Proof. exact ChkModelC03.chk_C03_tree. Qed.
+Print Assumptions C03_checker_accepts_model.
+
+Theorem C03_checker_k1_class : forall s ws,
+  RStreamTree.rshape s = true -> treeA s = true -> k1_shape s = true ->
+  chk_C03 s (api_tree s ws) = 0 \/ chk_C03 s (api_tree s ws) = 51.
+Proof. exact ChkModelC03.chk_C03_tree_k1. Qed.
+Print Assumptions C03_checker_k1_class.
+
+(* ---- the property with hypotheses on the INPUT only: `tiny s` bounds the text sizes, table sizes
+   and the numbers in the attached maps of the tree by 2^28 (Proofs/BoundsPos.v); the encoder-domain
+   hypotheses above are consequences (Proofs/BoundsAll.v) ---- *)
+From RS Require Proofs.BoundsPos Proofs.BoundsAll.
+Theorem C03_trees_input_bounds : forall st s c,
+  RStreamTree.rshape s = true -> treeA s = true -> BoundsPos.tiny s = true ->
+  attr_of_map (fst (get_map st s c)) (source s) c = attr_of_stream (fst (fst (stream st s (mkOpts c false)))) c /\
+  is_none (fst (get_map st s c)) = negb (mapped_chunk_exists (fst (fst (stream st s (mkOpts c false))))).
+Proof.
+  intros st s c H1 H2 H3. destruct c; [apply BoundsAll.C03_tree_cols_tiny|apply BoundsAll.C03_tree_lines_tiny]; assumption.
+Qed.
+Print Assumptions C03_trees_input_bounds.
